@@ -22,6 +22,7 @@ def impl_codec(case):
     canon.noise()           # a refused call before this one: it must make no difference
     try:
         m = mido.Message(name, time=t, **kw)
+        canon.observe(m)        # asked about itself first: that is not an edit
         bs = m.bytes()
         ln = len(m)
         out = canon.out_list(bs) + [ln] + canon.out_list(canon.std_layout(ints)) + [canon.std_status(ints)]
